@@ -239,7 +239,7 @@ class BounceRecorder(object):
 
 
 class QH(object):
-    def __init__(self, inner=None, start=True):
+    def __init__(self, inner=None, start=True, store_pool=None, relay_pool=None):
         hub = gevent.get_hub()
         try:
             hub.exception_stream = None
@@ -278,7 +278,8 @@ class QH(object):
         self._old_time = Q.time
         Q.time = _VTime(self)
         self.queue = Queue(self.store, self.relay, backoff=self._backoff,
-                           bounce_factory=self._bounce_factory, bounce_queue=self.bq)
+                           bounce_factory=self._bounce_factory, bounce_queue=self.bq,
+                           store_pool=store_pool, relay_pool=relay_pool)
         self.queue.wake = VEvent(self)
         h = self
         orig_check = self.queue._check_ready
@@ -774,3 +775,42 @@ def replay_run(ctx, case):
     finally:
         run.close()
     return 0
+
+
+def bounded_pool_scenario(ctx):
+    """D10 (known finding): with bounded store and relay pools a _dequeue greenlet holding the
+    only store slot waits for a relay slot while the _attempt greenlet holding the only relay
+    slot waits for a store slot (to run _retry_later): nothing moves any more."""
+    # one store slot is held for good by the _wait_store greenlet, so store_pool=2 leaves one
+    h = QH(store_pool=2, relay_pool=1)
+    case = dict(schedule='bounded-pools', store_pool=2, relay_pool=1)
+    try:
+        if h.pending('load'):
+            h.release(h.pending('load')[0], [])
+        h.act_enqueue('s@example.com', [0])
+        h.release(h.pending('write')[0])                 # m0 stored, attempt A0 takes the relay slot
+        if not h.pending('relay', 0):
+            ctx.note('bounded-pool scenario could not be set up (no relay gate)')
+            return
+        # a second stored message is announced and becomes due
+        env = Envelope('s@example.com', ['r6@example.com'])
+        rid = h.inner.write(env, 0.0)
+        mid = h.new_id(rid)
+        h.accepted[mid] = (True, [6])
+        g = h.pending('wait')[0]
+        h.release(g, [(0.0, rid)])
+        h.act_advance(1)                                  # scheduler dispatches m1: _dequeue takes the store slot
+        if h.pending('get', mid):
+            h.release(h.pending('get', mid)[0])           # ... and now waits for a relay slot
+        h.release(h.pending('relay', 0)[0], ('temp',))     # A0 fails: wants a store slot for _retry_later
+        for _ in range(5):
+            h.act_advance(10)
+        progressed = bool(h.pending('incr', 0)) or any(a['id'] == mid for a in h.attempts)
+        ctx.count('bounded-pool-scenario')
+        ctx.evaluated(('bounded-pools', 1, 1))
+        if not progressed:
+            ctx.fail('c12:bounded-pools-deadlock', case,
+                     'store_pool=2 (one slot held by _wait_store), relay_pool=1: after a transient failure of message 0 while message 1 was being dequeued, '
+                     'neither the retry bookkeeping of 0 nor an attempt of 1 ever starts (pending gates: %r)' % (h.gates,))
+    finally:
+        h.close()
